@@ -225,6 +225,7 @@ func init() {
 			if r := recover(); r != nil {
 				if _, ok := r.(abortSignal); ok {
 					p.depth = depth
+					p.locks = nil // the process died: its locks died with it
 					res = sym.True
 					return
 				}
